@@ -143,6 +143,7 @@ func c14CountEqualsDeliveries(r *core.Run) {
 		return
 	}
 	cnt := 0
+	counters := map[*ssa.Alloc]bool{} // the cells the delivery callbacks increment
 	for _, an := range fn.SSA.AnonFuncs {
 		writes := findInstrs(an, false, callTo(fnWriteMessage))
 		if len(writes) == 0 {
@@ -165,6 +166,9 @@ func c14CountEqualsDeliveries(r *core.Run) {
 			if bin, ok := st.Val.(*ssa.BinOp); ok && bin.Op == token.ADD {
 				if k, isK := bin.Y.(*ssa.Const); isK && k.Value != nil && k.Int64() == 1 {
 					ib[in.Block()]++
+					if cell, isCell := resolveFreeVar(st.Addr.(*ssa.FreeVar)).(*ssa.Alloc); isCell {
+						counters[cell] = true
+					}
 				}
 			}
 		})
@@ -179,15 +183,30 @@ func c14CountEqualsDeliveries(r *core.Run) {
 	}
 	r.Floor("count-equals-deliveries", cnt, 2)
 	// the returned value is that counter
+	// the returned value is the sum of exactly those counters (one counter, or one per kind
+	// of delivery added up)
 	okRet := false
 	for _, ret := range core.Returns(fn.SSA) {
-		if u, ok := core.ResultValue(ret, 0).(*ssa.UnOp); ok {
-			if _, isAl := u.X.(*ssa.Alloc); isAl {
-				okRet = true
+		seen := map[*ssa.Alloc]bool{}
+		sumOK := true
+		var leaves func(v ssa.Value, depth int)
+		leaves = func(v ssa.Value, depth int) {
+			if bin, isBin := v.(*ssa.BinOp); isBin && bin.Op == token.ADD && depth < 4 {
+				leaves(bin.X, depth+1)
+				leaves(bin.Y, depth+1)
+				return
 			}
+			if u, isLoad := v.(*ssa.UnOp); isLoad && u.Op == token.MUL {
+				if al, isAl := u.X.(*ssa.Alloc); isAl && counters[al] && !seen[al] {
+					seen[al] = true
+					return
+				}
+			}
+			sumOK = false
 		}
-		if k, ok := core.ResultValue(ret, 0).(*ssa.Const); ok && k.Value != nil && k.Int64() == 0 {
-			okRet = okRet || false
+		leaves(core.ResultValue(ret, 0), 0)
+		if sumOK && len(seen) == len(counters) && len(counters) > 0 {
+			okRet = true
 		}
 	}
 	r.Check(okRet, "count-equals-deliveries", fnPublish+" returns the counter", site(r, fn.SSA.Pos()), "Publish returns the delivery counter", "Publish does not return the delivery counter")
